@@ -79,7 +79,7 @@ fn compare(suite: &str, inp: &str, text: &str, r: &RefStats) {
 fn c15_figures_match_recomputation() {
     let suite = "c15_figures_match_recomputation";
     let mut cases = 0;
-    for salt in 0..2u64 {
+    for salt in 0..(if thorough() { 10u64 } else { 2 }) {
         let mut rng = Rng::new(150 + salt);
         let mut chain = gen_history(&mut rng, 12);
         // ties: two transactions of identical size and value that both beat every earlier one, in one block and across blocks
